@@ -193,8 +193,8 @@ class Engine:
             return OpaqueV('decorator', name)
         if isinstance(expr, ast.Call) and ast.unparse(expr.func) == 're.compile':
             return OpaqueV('regex', name)
-        fr0 = Frame(FuncInfo('<module>', ast.parse('0').body[0], m), defcls=None)
-        fr0.fi.node = ast.Lambda(args=ast.arguments(posonlyargs=[], args=[], kwonlyargs=[], kw_defaults=[], defaults=[]), body=expr)
+        lam = ast.Lambda(args=ast.arguments(posonlyargs=[], args=[], kwonlyargs=[], kw_defaults=[], defaults=[]), body=expr)
+        fr0 = Frame(FuncInfo('<module>', lam, m), defcls=None)
         return it.ev(expr, fr0)
 
     def resolve_import(self, it, m, imp, node):
@@ -383,6 +383,8 @@ class Engine:
     def verify(self, c, max_paths=4000):
         """generate all obligations of contract `c` from the current source; returns dict"""
         t0 = time.time()
+        if c.key not in self.repo.funcs:
+            raise Unsupported(f'{c.id}: function not found in the working tree (renamed or removed?)')
         fi = self.repo.func(c.key)
         self.cur_key = c.id
         dec = Decider()
@@ -431,9 +433,13 @@ class Engine:
         it.spec_extra = {}
         sc = it.spec_ctx()
         sc.interp = it
+        it.entry_static = {}
         if c.requires is not None:
-            for nm, g in _named(c.requires(sc), 'pre'):
+            from .interp_call import _named3
+            for nm, g, meta in _named3(c.requires(sc), 'pre'):
                 run.assume(g)
+                if meta and meta.get('static'):
+                    it.entry_static[nm] = meta['static']
         # the pre-state may have been extended by the precondition (lazy arrays): re-snapshot
         it.pre_heap = run.heap.snapshot()
         if not run.feasible(z3.BoolVal(True)):
@@ -458,7 +464,14 @@ class Engine:
                 kw[nm] = v
         if a.kwarg and a.kwarg.arg in args:
             kwv = args[a.kwarg.arg]
-        it.bind(a, pos, kw, fr, fi.node, fi)
+        if c.opts.get('bind_partial'):
+            for nm, v in args.items():
+                fr.loc[nm] = v
+            for d_name, d in zip([x.arg for x in a.kwonlyargs], a.kw_defaults):
+                if d_name not in fr.loc and d is not None:
+                    fr.loc[d_name] = it.ev_default(d, fr)
+        else:
+            it.bind(a, pos, kw, fr, fi.node, fi)
         if a.kwarg and a.kwarg.arg in args:
             fr.loc[a.kwarg.arg] = args[a.kwarg.arg]
         if a.vararg and a.vararg.arg in args:
